@@ -1,4 +1,5 @@
 import AdeuModel.Lemmas.Engine
+import AdeuModel.Lemmas.Attr
 /-
 C09 — saved output is structurally valid revision and comment markup (model-level clauses).
 -/
@@ -18,6 +19,19 @@ theorem C09_ids_fresh (d : Document) (author date : Str) (bs : List Block) (n : 
     (hk : strNat? rev.id = some k) :
     k < (Sess.open d author date).nextRev + 1 :=
   newRev_fresh d author date bs n rev k hbs hn hform hk
+
+/-- Whole batches (offset-addressed and searched edits mixed; applied, skipped, matched fuzzily, inside or across
+another reviewer's insertion — the non-literal matcher is an arbitrary parameter): **every** revision mark of
+**every** story of the result is either one of the marks the document had when the session was opened — same id,
+same author, same date: nobody else's change is re-attributed or re-dated — or a mark of this session: it carries
+the session's author and the session's date, and its id was handed out after the ids scanned when the session was
+opened (`revsDoc`: the `w:ins` / `w:del` that are paragraph children, read off the canonical content stream). -/
+theorem C09_marks_attributed (s : Sess) (edits : List HEdit) :
+    ∀ x ∈ revsDoc (Doc.applyEdits s edits).1.doc,
+      x ∈ revsDoc s.doc ∨
+      (x.author = some s.author ∧ x.date = some s.date ∧
+        ∃ k, s.nextRev < k ∧ k ≤ (Doc.applyEdits s edits).1.nextRev ∧ x.id = natStr k) :=
+  (RevOk_applyEdits s edits).revs
 
 /-- A new comment is listed exactly once in the comments part and once in each auxiliary part. -/
 theorem C09_comment_parts (s : Sess) (text : Str) (parent : Option Str) :
